@@ -101,6 +101,7 @@ type aresp struct {
 	Trailer  bool
 	Hdrs     [][2]string
 	Over     bool // body exceeds MaxResponseBodySize
+	SSE      bool // an event stream of unknown length (streamed to a buffered client too)
 }
 
 type ccfg struct {
@@ -564,6 +565,12 @@ func genResp(r *mon.Rand, i int, method string, last bool, limit bool) *aresp {
 	}
 	p.Trailer = p.Mode == "chunked" && r.Bool()
 	p.Over = limit && len(p.Body) > respLimit
+	if p.Mode != "cl" && r.Chance(5) {
+		// an event stream of unknown length: a buffered client hands it out as a stream
+		// too, with everything that follows from that for the connection
+		p.Hdrs = append(p.Hdrs, [2]string{"Content-Type", r.Str("text/event-stream", "text/event-stream; charset=utf-8")})
+		p.SSE = true
+	}
 	return p
 }
 
@@ -816,7 +823,7 @@ func oneConn(w *mon.W, c *mon.Case, getC func(ccfg) *cengine, srv *sview) {
 		if dieNow {
 			w.Count("idle_close_retried", 1)
 		}
-		if p.Over && !cf.stream && !a.SkipBody {
+		if p.Over && !cf.stream && !p.SSE && !a.SkipBody {
 			if !errors.Is(o.Err, errs.ErrBodyTooLarge) {
 				c.Violate("body-limit", "%s: response body of %d bytes exceeds MaxResponseBodySize %d but Do returned err=%v with %d body bytes", tag, len(p.Body), respLimit, o.Err, len(o.Body))
 				return
@@ -826,7 +833,7 @@ func oneConn(w *mon.W, c *mon.Case, getC func(ccfg) *cengine, srv *sview) {
 			continue
 		}
 		if o.Err != nil {
-			if p.Over && cf.stream && errors.Is(o.Err, errs.ErrBodyTooLarge) {
+			if p.Over && (cf.stream || p.SSE) && errors.Is(o.Err, errs.ErrBodyTooLarge) {
 				w.Count("over_limit_rejected", 1)
 				continue
 			}
